@@ -67,14 +67,39 @@ def analyse(F, fn_path="run_prompt"):
         for x in _places(b):
             mentioned_in.add(x)
     state = [l for l in sorted(def_out & mentioned_in) if B.local_ty(l).replace("'_ ", "") in (SYMTAB_TY, POOL_TY) and B.local_name(l)]
+    names = {l: B.local_name(l) for l in state}
+    # ... or the fields of these types of a struct local that lives across the back edge (`state: ReplState { symtab, constants, globals }`)
+    structs = {}
+    for l in sorted(def_out & mentioned_in):
+        adt = F.adts.get(B.local_ty(l).replace("'_ ", "")) if B.local_name(l) else None
+        if adt and adt.get("kind") == "struct":
+            flds = [fd["name"] for fd in adt["variants"][0]["fields"] if fd["ty"].replace("'_ ", "") in (SYMTAB_TY, POOL_TY)]
+            if len(flds) >= 3:
+                structs[l] = [fd["name"] for fd in adt["variants"][0]["fields"]]
+                for fn_ in flds:
+                    state.append((l, fn_))
+                    names[(l, fn_)] = "%s.%s" % (B.local_name(l), fn_)
     if len(state) < 3:
         return {"error": "found %d session-state locals (want the symbol table, the constant pool and the global store)" % len(state)}
-    names = {l: B.local_name(l) for l in state}
+
+    def slot_of(pl):
+        """the state slot a place denotes: a state local, or one field of a state struct; else None"""
+        proj = [p for p in pl["p"] if p != "*"]
+        if pl["l"] in structs and len(proj) == 1 and isinstance(proj[0], dict) and "f" in proj[0]:
+            fn_ = proj[0].get("n") or (structs[pl["l"]][proj[0]["f"]] if isinstance(proj[0]["f"], int) and proj[0]["f"] < len(structs[pl["l"]]) else str(proj[0]["f"]))
+            return (pl["l"], fn_) if (pl["l"], fn_) in names else None
+        if not proj and pl["l"] in names and "*" not in pl["p"]:
+            return pl["l"]
+        return None
 
     def tag_of(tags, op):
         if op["k"] not in ("copy", "move"):
             return None
         pl = op["pl"]
+        if pl["l"] in structs:
+            sl_ = slot_of(pl)
+            if sl_ is not None:
+                return tags.get(sl_)
         base = tags.get(pl["l"])
         proj = [p for p in pl["p"] if p != "*"]
         if not proj:
@@ -126,8 +151,32 @@ def analyse(F, fn_path="run_prompt"):
             lhs, rv = s["lhs"], s["rv"]
             if lhs["p"]:
                 base = tags.get(lhs["l"])
+                if lhs["l"] in structs:
+                    sl_ = slot_of(lhs)
+                    if sl_ is not None:
+                        tags[sl_] = tag_of(tags, rv["a"]) if rv["k"] == "use" else None     # state.globals = vm.globals
+                    else:
+                        for k_ in [k_ for k_ in names if isinstance(k_, tuple) and k_[0] == lhs["l"]]:
+                            proj_ = [p for p in lhs["p"] if p != "*"]
+                            if proj_ and isinstance(proj_[0], dict) and (proj_[0].get("n") == k_[1]):
+                                tags[k_] = ("mut",)
+                    continue
                 if lhs["l"] in state and not any(p == "*" for p in lhs["p"]):
                     tags[lhs["l"]] = ("mut",)
+                continue
+            if lhs["l"] in structs:
+                # the whole struct is replaced: `state = ReplState { symtab: compiler.symtab, .. }` (directly or through a temporary)
+                src = None
+                if rv["k"] == "agg" and rv.get("ops") is not None:
+                    src = {fn_: tag_of(tags, op_) for fn_, op_ in zip(rv.get("fields") or structs[lhs["l"]], rv["ops"])}
+                elif rv["k"] == "use":
+                    t_ = tags.get(rv["a"]["pl"]["l"]) if rv["a"]["k"] in ("copy", "move") and not rv["a"]["pl"]["p"] else None
+                    src = t_[1] if t_ and t_[0] == "structval" else None
+                for k_ in [k_ for k_ in names if isinstance(k_, tuple) and k_[0] == lhs["l"]]:
+                    tags[k_] = (src or {}).get(k_[1]) if src is not None else None
+                continue
+            if rv["k"] == "agg" and rv.get("ops") is not None and rv.get("fields") and any(B.local_ty(lhs["l"]).replace("'_ ", "") == B.local_ty(l_).replace("'_ ", "") for l_ in structs):
+                tags[lhs["l"]] = ("structval", _freeze_d({fn_: tag_of(tags, op_) for fn_, op_ in zip(rv["fields"], rv["ops"])}))
                 continue
             if rv["k"] == "use":
                 tags[lhs["l"]] = tag_of(tags, rv["a"])
@@ -137,6 +186,8 @@ def analyse(F, fn_path="run_prompt"):
                     tags[lhs["l"]] = tags[src]
                 else:
                     tags[lhs["l"]] = ("refl", src, bool(rv.get("mut")))
+            elif rv["k"] in ("ref", "rawptr") and rv["pl"]["l"] in structs and slot_of(rv["pl"]) is not None:
+                tags[lhs["l"]] = ("refl", slot_of(rv["pl"]), bool(rv.get("mut")))
             elif rv["k"] in ("ref", "rawptr"):
                 # a reference to a field of something: if it is a mutable borrow into a state value, that value is no longer pristine
                 src = rv["pl"]["l"]
@@ -169,6 +220,10 @@ def analyse(F, fn_path="run_prompt"):
                 val = ("vm", args[1])
             elif cal == "parse_program":
                 val = ("parse-result",)
+            elif cal.endswith(("mem::take", "mem::replace")) and args and args[0] and args[0][0] == "refl" and args[0][1] in names:
+                # the value is moved out of the slot (an empty / given one is left behind)
+                val = tags.get(args[0][1])
+                tags[args[0][1]] = ("mut",)
             else:
                 # a state value handed out mutably to anything else is no longer the value the iteration started with
                 for a in args:
@@ -200,7 +255,7 @@ def analyse(F, fn_path="run_prompt"):
             if not B.blocks[s].get("cleanup"):
                 work.append((s, _freeze(tags), rej))
     return {"ok": not problems, "problems": sorted(set(problems)), "accepted": accepted, "rejected_paths": rejected_paths, "kinds": sorted(kinds), "state": [names[l] for l in state],
-            "body": B, "loop": (h, body), "state_locals": state}
+            "body": B, "loop": (h, body), "state_locals": state, "names": names}
 
 
 def _places(b):
@@ -222,7 +277,21 @@ def _places(b):
 
 
 def _freeze(tags):
-    return tuple(sorted((k, v) for k, v in tags.items() if v is not None))
+    return tuple(sorted(((k, v) for k, v in tags.items() if v is not None), key=repr))
+
+
+class _FD(tuple):
+    """a frozen {field: tag} mapping"""
+
+    def get(self, k, default=None):
+        for a, b in self:
+            if a == k:
+                return b
+        return default
+
+
+def _freeze_d(d):
+    return _FD(sorted(d.items(), key=repr))
 
 
 def _show(t, names):
